@@ -320,6 +320,22 @@ func judge(c *vl.Ctx, e *sched.Engine, p *pspec, pr *sched.Project, r *sched.Pro
 	t.steps += r.Steps
 	t.cpu += r.CPUms
 	t.mu.Unlock()
+	if r.Nondet {
+		// two fresh processes compiled this project differently under the same schedule and the
+		// same map orders at every hooked site
+		t.mu.Lock()
+		dup := t.reported[p.id+"/same-schedule"]
+		t.reported[p.id+"/same-schedule"] = true
+		t.mu.Unlock()
+		if nd := e.Nondet[pr.ID]; nd != nil && !dup {
+			w := whatDiffers(nd.A, nd.B)
+			c.Outcome("same schedule, different output")
+			c.Fail(vl.Fail{Case: "C14/" + p.id + "/same-schedule", Obs: fmt.Sprintf("project %s: two fresh compiler processes running the default schedule (same scheduling decisions, same iteration order at every hooked map range) produced different results (%s differ); seen after %d runs", p.id, w, nd.Runs),
+				Files: replayFiles(pr, nd.A, nd.B, nil)})
+		}
+		c.Distinct(p.id)
+		return
+	}
 	def := r.Obs[r.RootHash].Text
 	c.Distinct(p.id)
 	// control: well-formed projects must compile on the default schedule
